@@ -524,6 +524,16 @@ class Interp:
             if isinstance(v, Closure) and isinstance(v.node, ast.FunctionDef) and any(norm(d) == 'property' for d in v.node.decorator_list):
                 return self.call(v, [])
             return v
+        if isinstance(e, ast.Compare) and len(e.ops) > 1:
+            # a < b <= c: the conjunction of the links, left to right with short circuit (operands are evaluated once in Python; the
+            # operands here are names / constants / pure expressions)
+            left = e.left
+            for op_, right in zip(e.ops, e.comparators):
+                link = ast.copy_location(ast.Compare(left=left, ops=[op_], comparators=[right]), e)
+                if not self.truth(self.ev(link, env, cls)):
+                    return False
+                left = right
+            return True
         if isinstance(e, ast.Compare) and len(e.ops) == 1:
             l = self.ev(e.left, env, cls)
             r = self.ev(e.comparators[0], env, cls)
@@ -824,7 +834,7 @@ class Interp:
             return [(i, v) for i, v in enumerate(self.seq(args[0]))]
         if isinstance(fn, ast.Name) and fn.id == 'len' and len(args) == 1 and isinstance(args[0], tuple) and args[0] and args[0][0] == 'linesof':
             return ('linecount', args[0][1])
-        if isinstance(fn, ast.Name) and fn.id == 'len' and len(args) == 1 and isinstance(args[0], (set, frozenset, dict, str)):
+        if isinstance(fn, ast.Name) and fn.id == 'len' and len(args) == 1 and isinstance(args[0], (set, frozenset, dict, str, bytes)):
             return len(args[0])
         if isinstance(fn, ast.Name) and fn.id == 'sorted' and len(args) == 1 and not kwargs:
             return self.h.new_list(sorted(self.seq(args[0])))
